@@ -137,9 +137,10 @@ def run_room(ctx, rseed, mode):
     if bad is None and not (worst_t < 1e-3 and worst_r < 1e-3):
         bad = ('lh:pose-error-above-1mm-1mrad', {'worst_translation_m': worst_t, 'worst_rotation_rad': worst_r,
                                                   'solver_success': bool(sol.success)})
-    if bad is not None and bad[0] == 'lh:pose-error-above-1mm-1mrad' and len(matched) <= 5 and \
-            (len(cleaned) < len(matched) or not sol.success):
-        # sparse room: the estimator's mirror-solution vote / the solver had too little data (known finding)
+    if bad is not None and bad[0] == 'lh:pose-error-above-1mm-1mrad' and \
+            (len(matched) <= 5 or len(cleaned) < len(matched) or not sol.success):
+        # poor initial estimate (known finding): the estimator's vote between the mirror IPPE solutions had too few
+        # samples (<= 5), it discarded error-free samples as outliers, or the solver reports success=False
         bad = ('lh:sparse-room:mirror-solution-or-unconverged', dict(bad[1], matched_samples=len(matched),
                                                                      samples_kept_by_estimator=len(cleaned)))
     if bad is not None:
